@@ -164,6 +164,7 @@ func genHistory(r *rng, maxOps int) rhistory {
 	h.ops = append(h.ops, rop{op: "size", w: h.w, h: h.h})
 	n := r.rangeIn(1, maxOps)
 	var prev []string
+	var past [][]string
 	alt := false
 	w, hh := h.w, h.h
 	entryW, entryH := w, hh
@@ -180,6 +181,11 @@ func genHistory(r *rng, maxOps int) rhistory {
 		switch {
 		case k < 45:
 			v := genView(r, w, hh, prev)
+			if len(past) > 1 && r.chance(1, 6) {
+				// an EARLIER view again (open, fold, open): what the renderer remembers of older frames must not matter
+				v = append([]string(nil), past[r.intn(len(past))]...)
+			}
+			past = append(past, append([]string(nil), v...))
 			prev = v
 			s := strings.Join(v, "\n")
 			if len(v) > 0 && r.chance(1, 3) {
@@ -239,6 +245,9 @@ func genHistory(r *rng, maxOps int) rhistory {
 	}
 	if r.chance(1, 3) {
 		v := genView(r, w, hh, prev)
+		if len(past) > 1 && r.chance(1, 3) {
+			v = append([]string(nil), past[r.intn(len(past))]...) // the final view is one shown before
+		}
 		s := strings.Join(v, "\n")
 		if r.chance(2, 3) {
 			s += "\n"
@@ -604,6 +613,10 @@ func streamRender(c *corrOut, r *rng, n int, thorough bool) map[string]interface
 		{w: 10, h: 5, r0: 0, ops: []rop{{op: "size", w: 10, h: 5}, {op: "w", arg: "aaa\n0123456789\nccc"}, {op: "f"}, {op: "w", arg: "aaa\n0123456789"}, {op: "f"}}},
 		{w: 10, h: 6, r0: 0, ops: []rop{{op: "size", w: 10, h: 6}, {op: "w", arg: "aaa\nbbb\nccc\nddd"}, {op: "f"}, {op: "pl", arg: "0123456789ab"}, {op: "w", arg: "aaa\nbbb\nccc\nddd"}, {op: "f"}}},
 		{w: 5, h: 3, r0: 2, ops: []rop{{op: "size", w: 5, h: 3}, {op: "w", arg: "a\nb\nc\nd\ne"}, {op: "f"}, {op: "w", arg: ""}, {op: "f"}}},
+		// open, fold, open again, quit: the final view equals an older frame beyond the end of the previous one
+		{w: 10, h: 6, r0: 0, ops: []rop{{op: "size", w: 10, h: 6}, {op: "w", arg: "aaa\nbbb\nccc\nddd\n"}, {op: "f"}, {op: "w", arg: "aaa\n"}, {op: "f"}, {op: "w", arg: "aaa\nbbb\nccc\nddd\n"}, {op: "st"}}},
+		{w: 10, h: 6, r0: 1, ops: []rop{{op: "size", w: 10, h: 6}, {op: "w", arg: "aaa\nbbb\nccc\nddd"}, {op: "f"}, {op: "w", arg: "xxx\nbbb"}, {op: "f"}, {op: "w", arg: "yyy\nbbb\nccc\nddd"}, {op: "f"}, {op: "w", arg: "yyy\nbbb\nccc\nddd\n"}, {op: "st"}}},
+		{w: 10, h: 6, r0: 0, ops: []rop{{op: "size", w: 10, h: 6}, {op: "ea"}, {op: "w", arg: "aaa\nbbb\nccc\nddd"}, {op: "f"}, {op: "w", arg: "aaa"}, {op: "f"}, {op: "w", arg: "aaa\nbbb\nccc\nddd"}, {op: "f"}, {op: "xa"}, {op: "w", arg: "q\n"}, {op: "st"}}},
 		{w: 4, h: 4, r0: 1, ops: []rop{{op: "size", w: 4, h: 4}, {op: "ea"}, {op: "w", arg: "abcdef\nxy"}, {op: "f"}, {op: "size", w: 3, h: 2}, {op: "w", arg: "abcdef\nxy\nz"}, {op: "f"}, {op: "xa"}, {op: "w", arg: "q"}, {op: "st"}}},
 	}
 	run := func(h rhistory, bucket string) {
